@@ -10,6 +10,10 @@
 (*   Emit       print the auto report of THIS run (report_id := SHA-256 of the input)    *)
 (*   Cleanup    remove out dir and temp files, exit 0                                   *)
 (*   Fail       every error path: remove whatever exists, message on stderr, exit 1 / 2 *)
+(* Failure can strike at every step: bad input at ReadInput (1), a stream or file that   *)
+(* is not valid UTF-8 at ReadInput / MkAuto, a parse / model error or a library routine  *)
+(* that calls sys.exit at Run, an --output target that exists / cannot be created or a   *)
+(* stdout whose reader has gone away at Emit.  Every one of them leaves nothing behind.  *)
 (* UniqueNames = FALSE models a shared output name; TLC must then find the interference *)
 (* (MC_CliShared.cfg): the invariants are not vacuous.                                  *)
 (***************************************************************************************)
@@ -26,6 +30,9 @@ vars == <<sit, pc, tmp, cwd, outdir, stdout, stderr, exit, readFrom, written>>
 Name(p, kind) == IF UniqueNames \/ kind # "outdir" THEN <<kind, p>> ELSE <<kind, 0>>
 BadInput(p)  == sit[p].input \in {"missing", "directory", "empty", "blank"}
 ParseFail(p) == sit[p].input \in {"syntax", "model"}
+Undecodable(p) == sit[p].input = "undecodable"      \* bytes that are not UTF-8
+LibExit(p) == sit[p].input = "libexit"              \* a report definition the library refuses with sys.exit (MessageHandler.error)
+EmitFail(p) == sit[p].out \in {"exists", "baddir", "brokenpipe"}
 FromStdin(p) == sit[p].channel \in {"stdin", "dash"}
 \* stdin cannot deliver a missing file or a directory: those situations read an empty stream
 Reports(p) == {<<"auto", sit[p].format>>}
@@ -46,6 +53,7 @@ Fail(p, code) == /\ tmp' = tmp \ Mine(p)                         \* every except
 ReadInput(p) ==
   /\ pc[p] = "start"
   /\ IF BadInput(p) THEN Fail(p, 1)
+     ELSE IF Undecodable(p) /\ FromStdin(p) THEN Fail(p, 2)      \* the stream cannot be decoded
      ELSE /\ tmp' = IF FromStdin(p) THEN tmp \cup {Name(p, "stdincopy")} ELSE tmp
           /\ pc' = [pc EXCEPT ![p] = "hashed"] /\ UNCHANGED <<sit, cwd, outdir, stdout, stderr, exit, readFrom, written>>
 MkOutDir(p) ==
@@ -54,11 +62,13 @@ MkOutDir(p) ==
   /\ outdir' = IF Name(p, "outdir") \in DOMAIN outdir THEN outdir ELSE (Name(p, "outdir") :> {}) @@ outdir
   /\ pc' = [pc EXCEPT ![p] = "outdir"] /\ UNCHANGED <<sit, cwd, stdout, stderr, exit, readFrom, written>>
 MkAuto(p) ==
-  /\ pc[p] = "outdir" /\ tmp' = tmp \cup {Name(p, "autofile")}
-  /\ pc' = [pc EXCEPT ![p] = "auto"] /\ UNCHANGED <<sit, cwd, outdir, stdout, stderr, exit, readFrom, written>>
+  /\ pc[p] = "outdir"
+  /\ IF Undecodable(p) THEN Fail(p, 2)                           \* the input file cannot be copied as text
+     ELSE /\ tmp' = tmp \cup {Name(p, "autofile")}
+          /\ pc' = [pc EXCEPT ![p] = "auto"] /\ UNCHANGED <<sit, cwd, outdir, stdout, stderr, exit, readFrom, written>>
 Run(p) ==
   /\ pc[p] = "auto"
-  /\ IF ParseFail(p) THEN Fail(p, 2)
+  /\ IF ParseFail(p) \/ LibExit(p) THEN Fail(p, 2)
      ELSE /\ Name(p, "outdir") \in DOMAIN outdir
           /\ outdir' = [outdir EXCEPT ![Name(p, "outdir")] = @ \cup {<<r[1], r[2], p>> : r \in Reports(p)}]
           /\ pc' = [pc EXCEPT ![p] = "ran"] /\ UNCHANGED <<sit, tmp, cwd, stdout, stderr, exit, readFrom, written>>
@@ -67,7 +77,7 @@ Run(p) ==
 \* without --force: that is a failure path like any other (clean up, diagnostic, non-zero exit)
 Emit(p) ==
   /\ pc[p] = "ran" /\ Name(p, "outdir") \in DOMAIN outdir
-  /\ IF sit[p].out = "exists" THEN Fail(p, 2)
+  /\ IF EmitFail(p) THEN Fail(p, 2)
      ELSE /\ LET cands == {f \in outdir[Name(p, "outdir")] : f[1] = "auto" /\ f[2] = sit[p].format}
              IN  /\ cands # {}
                  /\ \E f \in cands :
@@ -88,9 +98,13 @@ Next == \E p \in Procs : ReadInput(p) \/ MkOutDir(p) \/ MkAuto(p) \/ Run(p) \/ E
 Spec == Init /\ [][Next]_vars /\ WF_vars(Next)
 
 AllDone == \A p \in Procs : pc[p] = "exited"
-\* C19
+\* C19.  AllowedExit: 1 for missing / empty input, 2 when report generation fails.  Input that exists but cannot be
+\* decoded may be called "unreadable input" (1) or a failed generation (2); the help text documents 3 for an existing
+\* --output target while the statement lists only 0 / 1 / 2: both are accepted.
+WantExit(p) == IF BadInput(p) THEN 1 ELSE IF ParseFail(p) \/ LibExit(p) \/ Undecodable(p) \/ EmitFail(p) THEN 2 ELSE 0
+AllowedExit(p) == IF Undecodable(p) THEN {1, 2} ELSE IF ~BadInput(p) /\ ~ParseFail(p) /\ ~LibExit(p) /\ sit[p].out = "exists" THEN {2, 3} ELSE {WantExit(p)}
 ExitContract == \A p \in Procs : pc[p] = "exited" =>
-   /\ exit[p] = (IF BadInput(p) THEN 1 ELSE IF ParseFail(p) \/ sit[p].out = "exists" THEN 2 ELSE 0)
+   /\ exit[p] = WantExit(p)
    /\ stdout[p] = (IF exit[p] = 0 /\ sit[p].out = "stdout" THEN "auto" ELSE "none")
    /\ written[p] = (IF exit[p] = 0 /\ sit[p].out # "stdout" THEN "auto" ELSE "none")
    /\ (exit[p] # 0 => stderr[p])
@@ -99,7 +113,7 @@ NoTrace == AllDone => tmp = {} /\ cwd = {} /\ DOMAIN outdir = {}
 Isolation == \A p \in Procs : readFrom[p] \subseteq {p}
 Terminates == <>AllDone
 EmitT == (EmitTerminal /\ AllDone) =>
-   PrintT(<<"CLITERM", ToJson([p \in Procs |-> [sit |-> sit[p], exit |-> exit[p], stdout |-> stdout[p], written |-> written[p], stderr |-> stderr[p],
+   PrintT(<<"CLITERM", ToJson([p \in Procs |-> [sit |-> sit[p], exit |-> exit[p], okExits |-> AllowedExit(p), stdout |-> stdout[p], written |-> written[p], stderr |-> stderr[p],
                                                   tmpLeft |-> Cardinality(tmp), cwdNew |-> Cardinality(cwd)]])>>)
 
 (* ------------- file-operation traces of real processes (strace), C20 ------------------------- *)
